@@ -53,7 +53,7 @@ impl Property for C11 {
         "C11"
     }
     fn rule(&self) -> String {
-        "case = year-less log (5 notations: `Mon dd`, `Mon  d`, full month name, <pri> prefix, bracketed) of 2..40 messages with non-decreasing true instants and gaps drawn from {0, seconds, hours, days, months up to < 360 days} so that 0..several year boundaries are crossed, written in the -t zone (15-minute steps); modification time placed anywhere inside the last message's local year incl. its first and last second; stored plain, .gz (mtime in the gzip header, decoy file mtime), .tar (member mtime, decoy file mtime), .bz2/.xz/.lz4 (file mtime); block size 64..65536; optional window. oracle: `-u -d %s.%9f|` prefix of message i == true instant t_i, messages in file order, window selection == filter over the true instants. Excluded by construction and counted: a 29 February message followed later by a message of a later year (project Issue #245). non-trivial = >=1 year boundary crossed or mtime within a day of a year edge or the zone shifts the year; distinct = hash(case).".into()
+        "case = year-less log (5 notations: `Mon dd`, `Mon  d`, full month name, <pri> prefix, bracketed) of 2..40 messages with non-decreasing true instants and gaps drawn from {0, seconds, hours, days, months up to < 360 days} so that 0..several year boundaries are crossed, written in the -t zone (15-minute steps); modification time placed anywhere inside the last message's local year incl. its first and last second; stored plain, .gz (mtime in the gzip header, decoy file mtime), .tar (member mtime, decoy file mtime), .bz2/.xz/.lz4 (file mtime); block size 64..65536; optional window. oracle: `-u -d %s.%9f|` prefix of message i == true instant t_i, messages in file order, window selection == filter over the true instants. One case in seven is shifted so that some message falls on a 29 February. Excluded by construction and counted: a 29 February message followed later by a message of a later year (project Issue #245). non-trivial = >=1 year boundary crossed or mtime within a day of a year edge or the zone shifts the year; distinct = hash(case).".into()
     }
     fn assumptions(&self) -> Vec<String> {
         vec!["consecutive gaps are < 360 days (the statement's domain)".into(), "instants 1971..2098".into()]
@@ -86,8 +86,20 @@ impl Property for C11 {
             0u8..6,
             prop_oneof![2 => 64u64..400, 2 => 400u64..9000, 1 => Just(65536u64)],
             win_spec_or_none(),
+            prop::option::weighted(0.15, any::<u16>()),
         )
-            .prop_map(|(tmpl, tz15, start_local, gaps, mtime_pos, cont, bs, win)| Case { tmpl, tz15, start_local, gaps, mtime_pos, cont, bs, win, allow_f17: false })
+            .prop_map(|(tmpl, tz15, mut start_local, gaps, mtime_pos, cont, bs, win, leap)| {
+                // steer: one case in seven shifts the whole log so that message k falls on a 29 February
+                if let Some(k) = leap {
+                    let k = (k as usize * (gaps.len() + 1)) >> 16;
+                    let lk: i64 = start_local + gaps[..k].iter().map(|g| *g as i64).sum::<i64>();
+                    let c = dt::civil(lk as i128 * 1_000_000_000, 0);
+                    let y = (c.y + 3) / 4 * 4;
+                    let target = (dt::instant(y, 2, 29, c.h, c.mi, c.s, 0, 0) / 1_000_000_000) as i64;
+                    start_local += target - lk;
+                }
+                Case { tmpl, tz15, start_local, gaps, mtime_pos, cont, bs, win, allow_f17: false }
+            })
             .boxed()
     }
     fn exec(&self, case: &Case, _ctx: &Ctx) -> Outcome {
@@ -110,12 +122,9 @@ impl Property for C11 {
                 return Outcome::discard("29 Feb followed by a later year (Issue #245)");
             }
         }
-        // known finding F17: a 29 Feb message directly preceded by a message of an earlier year is not recognised
-        // (the preceding message is re-read with the earlier, non-leap year and swallows the 29 Feb line)
+        // fixed finding F18: a 29 Feb message directly preceded by a message of an earlier year was not recognised
+        // (the preceding message was re-read with the earlier, non-leap year and swallowed the 29 Feb line)
         let f17 = civils.windows(2).any(|w| w[1].mo == 2 && w[1].d == 29 && w[0].y < w[1].y);
-        if f17 && !case.allow_f17 {
-            return Outcome::discard("29 Feb directly after a message of an earlier year (known finding F17)");
-        }
         let mut content = vec![];
         let mut lines = vec![];
         for (i, c) in civils.iter().enumerate() {
@@ -214,6 +223,12 @@ impl Property for C11 {
         }
         if case.win.is_some() {
             o = o.class("with-window");
+        }
+        if civils.iter().any(|c| c.mo == 2 && c.d == 29) {
+            o = o.class("has-29-feb");
+        }
+        if f17 {
+            o = o.class("29-feb-after-earlier-year");
         }
         o.with_sample(json!({"tmpl": name, "tz": dt::off_colon(off), "container": codec.kind(), "messages": lines.len(), "years": years.iter().take(10).collect::<Vec<_>>(), "mtime": mtime, "window": w.args()}))
     }
